@@ -198,6 +198,9 @@ fn task_templates() -> Vec<(String, String, Vec<String>, String, usize)> {
 
 fn main() {
     let mut ctx = Ctx::from_env("C23");
+    if std::env::var("VERIF_DEBUG").is_ok() {
+        std::panic::set_hook(Box::new(|i| eprintln!("PANIC: {i}")));
+    }
 
     // ---- (1) templates with the property's own oracle
     let ts = templates();
